@@ -130,6 +130,9 @@ arr_real _from_file(const std::string& file, long count, endian order, long offs
             auto v = _from_bytes<T>(bytes.data(), order);
             res.push_back(v);
             --count;
+        } else {
+            //nothing was read and it is not the end of file: read error, do not spin
+            break;
         }
     }
 
